@@ -27,7 +27,8 @@ def run():
     types.artefacts("quick")
     agg.artefacts("quick")
     wac.artefacts("quick")
-    from . import targets
+    from . import targets, decl
     targets.artefacts("quick")
+    decl.artefacts("quick")
     log("[setup] done")
     return 0
